@@ -1,6 +1,7 @@
 //! Verification harness: runs the real implementation (path dependency on /repo)
 //! and prints canonical observations. One sub-command per engine.
 mod tables;
+mod text;
 
 fn main() {
     let args: Vec<String> = std::env::args().collect();
@@ -10,6 +11,7 @@ fn main() {
     }
     match args[1].as_str() {
         "tables" => tables::run(&args[2..]),
+        "text" => text::run(&args[2..]),
         other => {
             eprintln!("unknown engine {}", other);
             std::process::exit(2);
